@@ -110,6 +110,10 @@ type State struct {
 	noBlock       bool
 	pendingGo     []*Deferred
 	goDepth       int
+	goStack       []int     // ids of the goroutines currently running nested on this stack
+	goSeq         int       // goroutine ids handed out
+	parked        []*Parked // goroutines that wait for something (cooperative scheduling)
+	epoch         int       // bumped by every operation that can wake a waiting goroutine
 	choiceSeq     int
 	lockOwner     map[string]int // vPar: 1 + thread that holds the mutex
 	fmtArgs   []Value
@@ -166,6 +170,13 @@ func (s *State) clone() *State {
 	}
 	if s.open != nil {
 		t.open = s.open.clone()
+	}
+	t.goStack = append([]int(nil), s.goStack...)
+	if len(s.parked) > 0 {
+		t.parked = make([]*Parked, len(s.parked))
+		for i, p := range s.parked {
+			t.parked[i] = p.clone()
+		}
 	}
 	if s.par != nil {
 		t.par = s.par.clone()
@@ -250,4 +261,60 @@ func (s *State) setBytesAt(obj int, path []int, b *BytesVal) {
 type tokRec struct {
 	fn  string
 	ops []Value
+}
+
+// Parked is a goroutine that has been started and waits for something.
+type Parked struct {
+	id     int
+	frames []*Frame
+	epoch  int // value of State.epoch when it parked: it is resumed only after something changed
+	what   string
+}
+
+func (p *Parked) clone() *Parked {
+	q := *p
+	q.frames = make([]*Frame, len(p.frames))
+	for i, f := range p.frames {
+		q.frames[i] = f.clone()
+	}
+	return &q
+}
+
+// tid identifies the running thread: a goroutine started from a go statement, a vPar thread, or
+// the harness goroutine.
+func (s *State) tid() int {
+	if n := len(s.goStack); n > 0 {
+		return s.goStack[n-1]
+	}
+	if s.par != nil {
+		return s.par.cur + 1
+	}
+	return 100
+}
+
+// heldByOther: the mutex is held by a different thread that is still alive (a parked goroutine, a
+// goroutine lower on the stack, the other vPar thread). A mutex left locked by a goroutine that has
+// finished counts as held by whoever looks (it is a leak).
+func (s *State) heldByOther(k string) bool {
+	o := s.lockOwner[k]
+	if o == 0 || o == s.tid() {
+		return false
+	}
+	if s.par != nil && (o == 1 || o == 2) {
+		return true
+	}
+	for _, p := range s.parked {
+		if p.id == o {
+			return true
+		}
+	}
+	for _, g := range s.goStack {
+		if g == o {
+			return true
+		}
+	}
+	if o == 100 && len(s.goStack) > 0 {
+		return true // the harness goroutine, below on the stack
+	}
+	return false
 }
